@@ -1,6 +1,7 @@
-(* Crash safety of the FilePersister model: every crash point that does not fall between the
-   index write and the data write of a message put leaves the disk of an operation boundary, and
-   from there the C26 refinement theorem (with a reopen inserted) gives all four clauses. *)
+(* Crash safety of the FilePersister model (tree since a892b9a: the record is written before its
+   index entry).  Every crash point leaves either the disk of an operation boundary or that disk
+   with the bytes of the put in progress appended to the data file and no index entry for them;
+   both satisfy the invariant of the C26 refinement proof, which then gives all four clauses. *)
 From Coq Require Import PeanoNat NArith List Bool Lia.
 From F8 Require Import C26.SMap C26.SMapProofs C26.PersistSpec C26.PersistProofs C26.Spec_C26
   C26.MemPersist C26.MemProofs C26.FilePersist C26.FileLemmas C26.FileProofs C26.SpecProofs
@@ -9,85 +10,17 @@ Import ListNotations.
 Local Open Scope N_scope.
 
 (* ---- runs with final state ---- *)
+Lemma run_with_file : forall ops st, run_with file_step st ops = file_run st ops.
+Proof.
+  induction ops as [|o r IH]; intros st; [reflexivity|]. cbn [run_with file_run].
+  destruct (file_step st o) as [[st' x]|]; [|reflexivity]. rewrite IH. reflexivity.
+Qed.
+
 Lemma file_run_exec : forall ops st, file_run st ops = option_map snd (file_exec st ops).
 Proof.
   induction ops as [|o r IH]; intros st; [reflexivity|]. cbn [file_run file_exec].
   destruct (file_step st o) as [[st' x]|]; [|reflexivity]. rewrite IH.
   destruct (file_exec st' r) as [[s2 xs]|]; reflexivity.
-Qed.
-
-Lemma file_exec_app : forall a b st,
-  file_exec st (a ++ b) =
-  match file_exec st a with
-  | None => None
-  | Some (s1, x1) => match file_exec s1 b with
-                     | None => None
-                     | Some (s2, x2) => Some (s2, x1 ++ x2)
-                     end
-  end.
-Proof.
-  induction a as [|o r IH]; intros b st.
-  - cbn. destruct (file_exec st b) as [[s2 x2]|]; reflexivity.
-  - cbn [app file_exec]. destruct (file_step st o) as [[st' x]|]; [|reflexivity].
-    rewrite IH. destruct (file_exec st' r) as [[s1 x1]|]; [|reflexivity].
-    destruct (file_exec s1 b) as [[s2 x2]|]; reflexivity.
-Qed.
-
-Lemma file_exec_length : forall ops st st' outs, file_exec st ops = Some (st', outs) -> length outs = length ops.
-Proof.
-  induction ops as [|o r IH]; intros st st' outs H; cbn [file_exec] in H.
-  - inversion H; reflexivity.
-  - destruct (file_step st o) as [[s1 x]|]; [|discriminate].
-    destruct (file_exec s1 r) as [[s2 xs]|] eqn:E; [|discriminate]. inversion H; subst.
-    cbn [length]. f_equal. eapply IH; eauto.
-Qed.
-
-Lemma spec_run_length : forall ops sp, length (snd (spec_run sp ops)) = length ops.
-Proof.
-  induction ops as [|o r IH]; intros sp; [reflexivity|]. cbn [spec_run].
-  destruct (spec_step sp o) as [s1 x]. specialize (IH s1). destruct (spec_run s1 r). cbn [snd length] in *.
-  f_equal. exact IH.
-Qed.
-
-Lemma app_eq_len {A} : forall (a c b d : list A), length a = length c -> a ++ b = c ++ d -> a = c /\ b = d.
-Proof.
-  induction a as [|x a IH]; intros [|y c] b d L H; try discriminate; [auto|].
-  cbn in L, H. inversion H; subst. destruct (IH c b d) as [E1 E2]; auto. subst. auto.
-Qed.
-
-(* ---- a crash that is not torn leaves the disk of an operation boundary ---- *)
-Lemma crash_not_torn : forall ops st k d done i,
-  crash_run st ops k = Some (Crashed d done i) -> crash_torn st ops k = false ->
-  exists stj, file_exec st (firstn (length done) ops) = Some (stj, done) /\ d = f_disk stj /\
-              (length done <= length ops)%nat.
-Proof.
-  induction ops as [|o r IH]; intros st k d done i H T.
-  - cbn in H. inversion H; subst. exists st. cbn. auto.
-  - cbn [crash_run crash_torn] in H, T.
-    destruct (length (file_sys st o) <=? k)%nat eqn:Ek.
-    + destruct (file_step st o) as [[st' x]|] eqn:Es; [|discriminate].
-      destruct (crash_run st' r (k - length (file_sys st o))) as [[d' done' i']|] eqn:Ec; [|discriminate].
-      inversion H; subst. destruct (IH _ _ _ _ _ Ec T) as [stj [E1 [E2 E3]]].
-      exists stj. cbn [length firstn file_exec]. rewrite Es, E1. repeat split; auto. lia.
-    + inversion H; subst. exists st. cbn [length firstn file_exec]. split; [reflexivity|]. split; [|lia].
-      apply Nat.leb_gt in Ek.
-      destruct o as [seq b|seq|s t| | |req last|from to abort| ]; cbn [file_sys] in *;
-        try (cbn in Ek; lia).
-      * destruct (seq =? 0); [cbn in Ek; lia|].
-        destruct (sfind seq (f_index st)); [cbn in Ek; lia|]. cbn [length] in Ek.
-        destruct k as [|[|[|[|k]]]]; try reflexivity; [discriminate|lia].
-      * destruct (seq =? 0); [cbn in Ek; lia|].
-        destruct (sfind seq (f_index st)) as [[off sz]|]; [|cbn in Ek; lia]. cbn [length] in Ek.
-        destruct k as [|k]; [reflexivity|lia].
-      * cbn [length] in Ek. destruct k as [|[|k]]; try reflexivity. lia.
-Qed.
-
-Lemma between_not_torn : forall ops st k, crash_between st ops k = true -> crash_torn st ops k = false.
-Proof.
-  induction ops as [|o r IH]; intros st k H; [reflexivity|]. cbn [crash_between crash_torn] in *.
-  destruct (length (file_sys st o) <=? k)%nat.
-  - destruct (file_step st o) as [[st' x]|]; [auto|reflexivity].
-  - apply Nat.eqb_eq in H. subst. destruct o; reflexivity.
 Qed.
 
 (* ---- control-first histories ---- *)
@@ -98,110 +31,25 @@ Proof.
   destruct (slot_step m o); try discriminate; apply IH; auto.
 Qed.
 
-Lemma never_lost_then_reopen : forall a m b, never_lost_from m a = true -> m <> SLost -> no_reopen b = true ->
-  reopen_safe_from m (a ++ OReopen :: b) = true.
+Lemma never_lost_reopen_safe : forall ops m, never_lost_from m ops = true -> m <> SLost ->
+  reopen_safe_from m ops = true.
 Proof.
-  induction a as [|o r IH]; intros m b H Hm Hb.
-  - cbn [app reopen_safe_from]. destruct m; try contradiction; cbn [slot_step]; apply no_reopen_safe; auto.
-  - cbn [app never_lost_from reopen_safe_from] in *.
-    assert (slot_step m o <> SLost) by (destruct (slot_step m o); congruence).
-    assert (never_lost_from (slot_step m o) r = true) by (destruct (slot_step m o); congruence).
-    destruct m; try contradiction; try (apply IH; auto).
+  induction ops as [|o r IH]; intros m H Hm; [reflexivity|]. cbn [never_lost_from reopen_safe_from] in *.
+  assert (slot_step m o <> SLost) by (destruct (slot_step m o); congruence).
+  assert (never_lost_from (slot_step m o) r = true) by (destruct (slot_step m o); congruence).
+  destruct m; try contradiction; apply IH; auto.
 Qed.
 
-Lemma forallb_prefix_mid {A} (f : A -> bool) : forall a j c b, forallb f (a ++ c :: b) = true ->
-  forallb f (firstn j a ++ c :: b) = true.
-Proof.
-  induction a as [|x a IH]; intros j c b H; [destruct j; exact H|].
-  cbn [app forallb] in H. apply andb_true_iff in H. destruct H as [H1 H2].
-  destruct j; cbn [firstn app forallb].
-  - clear - H2. induction a as [|y a IH]; [exact H2|]. cbn [app forallb] in H2.
-    apply andb_true_iff in H2. destruct H2. auto.
-  - rewrite H1. cbn [andb]. apply IH; auto.
-Qed.
-
-(* ---- the main theorem ---- *)
-Lemma spec_outputs_reopen : forall a b,
-  spec_outputs (a ++ OReopen :: b) = spec_outputs a ++ RBool true :: snd (spec_run (spec_state a) b).
-Proof.
-  intros. unfold spec_outputs, spec_state. rewrite spec_run_app. cbn [snd spec_run spec_step].
-  destruct (spec_run (fst (spec_run spec_empty a)) b). reflexivity.
-Qed.
-
-Lemma c27_atomic_partial_lemma : forall pre k after,
-  ops_wf (pre ++ OReopen :: after) = true -> zero_free (pre ++ OReopen :: after) = true ->
-  never_lost pre = true -> no_reopen after = true ->
-  crash_torn file_empty pre k = false ->
-  c27_ok pre after (c27_result pre k after) = true.
-Proof.
-  intros pre k after Hw Hz Hn Ha Ht.
-  unfold c27_result, c27_model.
-  (* the combined run with the reopen inserted refines the contract *)
-  assert (Href : forall j, file_outputs (firstn j pre ++ OReopen :: after) =
-                           Some (spec_outputs (firstn j pre ++ OReopen :: after))).
-  { intros j. apply c26_file_refines_lemma.
-    - unfold ops_wf in *. apply andb_true_iff in Hw. destruct Hw as [Hw1 Hw2].
-      apply andb_true_iff. split; [apply forallb_prefix_mid; auto|].
-      apply N.ltb_lt in Hw2. apply N.ltb_lt. rewrite app_length in Hw2. rewrite app_length.
-      cbn [length] in *. rewrite firstn_length. lia.
-    - unfold zero_free in *. apply forallb_prefix_mid; auto.
-    - apply never_lost_then_reopen; auto; [apply never_lost_firstn; auto|discriminate]. }
-  destruct (crash_run file_empty pre k) as [[d done i]|] eqn:Ec.
-  2:{ (* the run of [pre] itself overran: excluded by refinement of the whole of pre *)
-      exfalso. clear Href.
-      assert (forall ops st k, crash_run st ops k = None -> file_exec st ops = None) as Hnone.
-      { induction ops as [|o r IH]; intros st k0 H; [discriminate|]. cbn [crash_run file_exec] in *.
-        destruct (length (file_sys st o) <=? k0)%nat; [|discriminate].
-        destruct (file_step st o) as [[st' x]|]; [|reflexivity].
-        destruct (crash_run st' r (k0 - length (file_sys st o))) as [[? ? ?]|] eqn:E; [discriminate|].
-        rewrite (IH _ _ E). reflexivity. }
-      specialize (Hnone _ _ _ Ec).
-      assert (file_outputs (firstn (length pre) pre ++ OReopen :: after) = None).
-      { unfold file_outputs. rewrite file_run_exec, file_exec_app, firstn_all, Hnone. reflexivity. }
-      assert (Hr : file_outputs (firstn (length pre) pre ++ OReopen :: after) <> None).
-      { rewrite c26_file_refines_lemma; [discriminate| | |].
-        - rewrite firstn_all. auto.
-        - rewrite firstn_all. auto.
-        - rewrite firstn_all. apply never_lost_then_reopen; auto. discriminate. }
-      contradiction. }
-  destruct (crash_not_torn _ _ _ _ _ _ Ec Ht) as [stj [E1 [E2 E3]]].
-  specialize (Href (length done)).
-  unfold file_outputs in Href. rewrite file_run_exec, file_exec_app, E1 in Href.
-  cbn [file_exec file_step] in Href. subst d. unfold recover.
-  destruct (replay (d_idx (f_disk stj))) as [ix|]; [|discriminate].
-  rewrite file_run_exec.
-  destruct (file_exec {| f_index := ix; f_disk := f_disk stj |} after) as [[s2 outs]|]; [|discriminate].
-  cbn [option_map snd] in *. inversion Href as [Heq]. clear Href.
-  rewrite spec_outputs_reopen in Heq.
-  change (done ++ RBool true :: outs) with (done ++ [RBool true] ++ outs) in Heq.
-  apply app_eq_len in Heq.
-  2:{ unfold spec_outputs. rewrite spec_run_length, firstn_length. lia. }
-  destruct Heq as [Hd Ho]. cbn [app] in Ho. inversion Ho as [Houts]. clear Ho.
-  cbn [o_done o_after c27_ok].
-  apply andb_true_iff. split; [apply andb_true_iff; split|].
-  - apply Nat.leb_le. exact E3.
-  - rewrite Hd at 1. unfold spec_outputs. apply spec_run_eqb.
-  - apply orb_true_iff. left. unfold cand_ok, state_after, spec_state. apply spec_run_eqb.
-Qed.
-
-Lemma c27_between_ops_partial_lemma : forall pre k after,
-  ops_wf (pre ++ OReopen :: after) = true -> zero_free (pre ++ OReopen :: after) = true ->
-  never_lost pre = true -> no_reopen after = true ->
-  crash_between file_empty pre k = true ->
-  c27_ok pre after (c27_result pre k after) = true.
-Proof. intros. apply c27_atomic_partial_lemma; auto. apply between_not_torn; auto. Qed.
-
-(* ---- what survives a torn put (crash between the index write and the data write) ---- *)
-
-(* the invariant of the C26 refinement proof holds in the state reached by a completed run *)
+(* ---- the invariant of the C26 refinement proof along a completed run ---- *)
 Lemma file_exec_finv : forall ops st sp mode n st' outs,
   finv st sp mode n -> forallb op_wf ops = true -> zero_free ops = true ->
   n + N.of_nat (length ops) < LIM -> never_lost_from mode ops = true -> mode <> SLost ->
   file_exec st ops = Some (st', outs) ->
-  exists mode', finv st' (fst (spec_run sp ops)) mode' (n + N.of_nat (length ops)) /\ mode' <> SLost.
+  exists mode', finv st' (fst (spec_run sp ops)) mode' (n + N.of_nat (length ops)) /\ mode' <> SLost /\
+                outs = snd (spec_run sp ops).
 Proof.
   induction ops as [|o r IH]; intros st sp mode n st' outs I Hw Hz Hn Hl Hm H.
-  - cbn in H. inversion H; subst. exists mode. cbn [length spec_run fst]. rewrite N.add_0_r. auto.
+  - cbn in H. inversion H; subst. exists mode. cbn [length spec_run fst snd]. rewrite N.add_0_r. auto.
   - cbn [forallb] in Hw. unfold zero_free in Hz. cbn [forallb] in Hz.
     apply andb_true_iff in Hw, Hz. destruct Hw as [Hw1 Hw2]. destruct Hz as [Hz1 Hz2].
     cbn [length] in *. rewrite Nat2N.inj_succ in *.
@@ -213,9 +61,10 @@ Proof.
     cbn [file_exec] in H. rewrite E in H.
     destruct (file_exec s1 r) as [[s2 xs]|] eqn:Er; [|discriminate]. inversion H; subst.
     cbn [spec_run]. destruct (spec_step sp o) as [sp1 x] eqn:Es. cbn [fst snd] in *.
-    destruct (IH s1 sp1 _ (n + 1) _ _ I1 Hw2 Hz2 ltac:(lia) Hl' Hm' Er) as [m2 [I2 Hm2]].
-    exists m2. destruct (spec_run sp1 r) as [sp2 ys]. cbn [fst] in *.
-    replace (n + N.succ (N.of_nat (length r))) with (n + 1 + N.of_nat (length r)) by lia. auto.
+    destruct (IH s1 sp1 _ (n + 1) _ _ I1 Hw2 Hz2 ltac:(lia) Hl' Hm' Er) as [m2 [I2 [Hm2 Hx]]].
+    exists m2. destruct (spec_run sp1 r) as [sp2 ys]. cbn [fst snd] in *.
+    replace (n + N.succ (N.of_nat (length r))) with (n + 1 + N.of_nat (length r)) by lia.
+    subst. auto.
 Qed.
 
 Lemma disk_inv_recs : forall mode st, mode <> SLost -> disk_inv mode st ->
@@ -225,98 +74,130 @@ Proof.
     destruct D as [recs [H1 [H2 [H3 _]]]]; exists recs; auto.
 Qed.
 
-(* shape of the disk after a torn put *)
-Lemma crash_torn_shape : forall ops st k d done i,
-  crash_run st ops k = Some (Crashed d done i) -> crash_torn st ops k = true ->
-  exists stj seq b, file_exec st (firstn (length done) ops) = Some (stj, done) /\
-    i = Some (OPut seq b) /\ In (OPut seq b) ops /\ seq <> 0 /\ sfind seq (f_index stj) = None /\
-    d = {| d_idx := d_idx (f_disk stj) ++ enc_iprec seq (len (d_dat (f_disk stj)), len b);
-           d_dat := d_dat (f_disk stj) |}.
+(* bytes appended to the data file without an index entry (an interrupted put) change nothing *)
+Lemma finv_garbage : forall st sp mode n w, finv st sp mode n -> len w <= MAX_MSG_LENGTH ->
+  finv {| f_index := f_index st;
+          f_disk := {| d_idx := d_idx (f_disk st); d_dat := d_dat (f_disk st) ++ w |} |} sp mode (n + 1).
 Proof.
-  induction ops as [|o r IH]; intros st k d done i H T; [discriminate|].
-  cbn [crash_run crash_torn] in H, T.
-  destruct (length (file_sys st o) <=? k)%nat eqn:Ek.
-  - destruct (file_step st o) as [[st' x]|] eqn:Es; [|discriminate].
-    destruct (crash_run st' r (k - length (file_sys st o))) as [[d' done' i']|] eqn:Ec; [|discriminate].
-    inversion H; subst. destruct (IH _ _ _ _ _ Ec T) as [stj [seq [b [E1 [E2 [E3 E4]]]]]].
-    exists stj, seq, b. cbn [length firstn file_exec]. rewrite Es, E1.
-    repeat split; try tauto. right. exact E3.
-  - inversion H; subst. apply Nat.leb_gt in Ek.
-    destruct o as [seq b|seq|s t| | |req last|from to abort| ]; try discriminate.
-    apply Nat.eqb_eq in T. subst k. exists st, seq, b. cbn [length firstn file_exec file_sys] in *.
-    destruct (N.eqb_spec seq 0); [cbn in Ek; lia|].
-    destruct (sfind seq (f_index st)) eqn:Ef; [cbn in Ek; lia|].
-    repeat split; auto; [left; reflexivity|].
-    unfold exec_all. cbn [firstn fold_left exec_sys fst d_idx d_dat]. rewrite write_at_end. reflexivity.
+  intros st sp mode n w [S M C B IB DL DI] Hw.
+  assert (MAX_MSG_LENGTH = 8192) as HM by reflexivity.
+  split; cbn [f_index f_disk d_idx d_dat]; auto.
+  - rewrite M. apply absm_ext. intros e He. symmetry. apply rd_app. apply IB; auto.
+  - intros e He. specialize (IB e He). unfold len in *. rewrite app_length, Nat2N.inj_add. lia.
+  - unfold len in *. rewrite app_length, Nat2N.inj_add. lia.
 Qed.
 
-Lemma c27_torn_partial_lemma : forall pre k d done i,
-  forallb op_wf pre = true -> zero_free pre = true -> N.of_nat (length pre) < LIM ->
-  never_lost pre = true ->
-  crash_run file_empty pre k = Some (Crashed d done i) -> crash_torn file_empty pre k = true ->
-  let s := spec_state (firstn (length done) pre) in
-  exists st seq b, recover d = Some st /\ i = Some (OPut seq b) /\
-    (forall j, j <> seq -> file_step st (OGet j) = Some (st, snd (spec_step s (OGet j)))) /\
-    file_step st OCtlGet = Some (st, RCtl (s_ctl s)) /\
-    (b <> [] -> file_step st (OGet seq) = Some (st, RBytes None)).
+(* ---- shape of the disk at any crash point ---- *)
+Lemma crash_shape : forall ops st k d done i,
+  crash_run st ops k = Some (Crashed d done i) ->
+  exists stj, file_exec st (firstn (length done) ops) = Some (stj, done) /\
+    (length done <= length ops)%nat /\
+    (d = f_disk stj \/
+     exists seq b, i = Some (OPut seq b) /\ len b <= MAX_MSG_LENGTH /\
+                   d = {| d_idx := d_idx (f_disk stj); d_dat := d_dat (f_disk stj) ++ b |}).
 Proof.
-  intros pre k d done i Hw Hz Hn Hl Hc Ht s.
-  destruct (crash_torn_shape _ _ _ _ _ _ Hc Ht) as [stj [seq [b [E1 [Ei [Hin [Hs0 [Hnf Hd]]]]]]]].
-  assert (LIM = 2147483648) as HL by reflexivity. assert (MAX_MSG_LENGTH = 8192) as HM by reflexivity.
+  unfold crash_run.
+  induction ops as [|o r IH]; intros st k d done i H.
+  - cbn in H. inversion H; subst. exists st. cbn. auto.
+  - cbn [crash_run_with] in H.
+    destruct (length (file_sys st o) <=? k)%nat eqn:Ek.
+    + destruct (file_step st o) as [[st' x]|] eqn:Es; [|discriminate].
+      destruct (crash_run_with file_sys file_step st' r (k - length (file_sys st o))) as [[d' done' i']|] eqn:Ec;
+        [|discriminate].
+      inversion H; subst. destruct (IH _ _ _ _ _ Ec) as [stj [E1 [E2 E3]]].
+      exists stj. cbn [length firstn file_exec]. rewrite Es, E1. repeat split; auto. lia.
+    + inversion H; subst. exists st. cbn [length firstn file_exec]. split; [reflexivity|]. split; [lia|].
+      apply Nat.leb_gt in Ek.
+      destruct o as [seq b|seq|s t| | |req last|from to abort| ]; cbn [file_sys] in *;
+        try (cbn in Ek; lia).
+      * destruct (seq =? 0); [cbn in Ek; lia|].
+        destruct (sfind seq (f_index st)); [cbn in Ek; lia|].
+        destruct (N.ltb_spec MAX_MSG_LENGTH (len b)) as [Hl|Hl]; [cbn in Ek; lia|]. cbn [length] in Ek.
+        destruct k as [|[|[|[|k]]]]; try (left; reflexivity); [|lia].
+        right. exists seq, b. repeat split; auto.
+        unfold exec_all. cbn [firstn fold_left exec_sys fst d_idx d_dat]. rewrite write_at_end. reflexivity.
+      * destruct (seq =? 0); [cbn in Ek; lia|].
+        destruct (sfind seq (f_index st)) as [[off sz]|]; [|cbn in Ek; lia]. cbn [length] in Ek.
+        destruct k as [|k]; [left; reflexivity|lia].
+      * cbn [length] in Ek. destruct k as [|[|k]]; try (left; reflexivity). lia.
+Qed.
+
+Lemma crash_none : forall ops st k, crash_run st ops k = None -> file_exec st ops = None.
+Proof.
+  unfold crash_run. induction ops as [|o r IH]; intros st k H; [discriminate|].
+  cbn [crash_run_with file_exec] in *.
+  destruct (length (file_sys st o) <=? k)%nat; [|discriminate].
+  destruct (file_step st o) as [[st' x]|]; [|reflexivity].
+  destruct (crash_run_with file_sys file_step st' r (k - length (file_sys st o))) as [[? ? ?]|] eqn:E; [discriminate|].
+  rewrite (IH _ _ E). reflexivity.
+Qed.
+
+(* ---- the main theorem: EVERY crash point ---- *)
+Lemma c27_atomic_partial_lemma : forall pre k after,
+  ops_wf (pre ++ OReopen :: after) = true -> zero_free (pre ++ OReopen :: after) = true ->
+  never_lost pre = true -> no_reopen after = true ->
+  c27_ok pre after (c27_result pre k after) = true.
+Proof.
+  intros pre k after Hw Hz Hn Ha.
+  assert (LIM = 2147483648) as HL by reflexivity.
+  unfold ops_wf in Hw. apply andb_true_iff in Hw. destruct Hw as [Hw1 Hw2]. apply N.ltb_lt in Hw2.
+  rewrite forallb_app in Hw1. cbn [forallb] in Hw1. apply andb_true_iff in Hw1. destruct Hw1 as [Hwp Hwa].
+  unfold zero_free in Hz. rewrite forallb_app in Hz. cbn [forallb] in Hz.
+  apply andb_true_iff in Hz. destruct Hz as [Hzp Hza]. cbn [op_wf op_bounded op_zero_free andb] in Hwa, Hza.
+  rewrite app_length in Hw2. cbn [length] in Hw2.
+  unfold c27_result, c27_model, c27_model_with. fold crash_run.
+  destruct (crash_run file_empty pre k) as [[d done i]|] eqn:Ec.
+  2:{ exfalso. apply crash_none in Ec.
+      assert (file_outputs pre = Some (spec_outputs pre)) as Hr.
+      { apply c26_file_refines_lemma.
+        - unfold ops_wf. rewrite Hwp. apply N.ltb_lt. lia.
+        - exact Hzp.
+        - apply never_lost_reopen_safe; auto. discriminate. }
+      unfold file_outputs in Hr. rewrite file_run_exec, Ec in Hr. discriminate. }
+  destruct (crash_shape _ _ _ _ _ _ Ec) as [stj [E1 [E3 Hshape]]].
   set (A := firstn (length done) pre) in *.
   assert (HlenA : (length A <= length pre)%nat) by (unfold A; rewrite firstn_length; lia).
-  (* the invariant at the last completed operation *)
-  destruct (file_exec_finv A file_empty spec_empty SVirgin 0 stj done finv_empty) as [mode [I Hm]]; auto.
-  { unfold A. rewrite <- (firstn_skipn (length done) pre) in Hw. rewrite forallb_app in Hw.
-    apply andb_true_iff in Hw. tauto. }
-  { unfold zero_free, A in *. rewrite <- (firstn_skipn (length done) pre) in Hz. rewrite forallb_app in Hz.
-    apply andb_true_iff in Hz. tauto. }
+  destruct (file_exec_finv A file_empty spec_empty SVirgin 0 stj done finv_empty) as [mode [I [Hm Hd]]]; auto.
+  { unfold A. rewrite <- (firstn_skipn (length done) pre) in Hwp. rewrite forallb_app in Hwp.
+    apply andb_true_iff in Hwp. tauto. }
+  { unfold zero_free, A in *. rewrite <- (firstn_skipn (length done) pre) in Hzp. rewrite forallb_app in Hzp.
+    apply andb_true_iff in Hzp. tauto. }
   { lia. }
   { apply never_lost_firstn; auto. }
   { discriminate. }
-  fold (spec_state A) in I. fold s in I. destruct I as [S M C B IB DL DI].
-  destruct (disk_inv_recs _ _ Hm DI) as [recs [H1 [H2 H3]]].
-  (* the put in progress is one of the operations: its numbers are bounded *)
-  assert (Hop : op_wf (OPut seq b) = true) by (rewrite forallb_forall in Hw; apply Hw; auto).
-  unfold op_wf in Hop. apply andb_true_iff in Hop. destruct Hop as [Hb1 Hb2].
-  cbn in Hb1. apply N.ltb_lt in Hb1. apply N.leb_le in Hb2.
-  set (dat := d_dat (f_disk stj)) in *.
-  set (r := (seq, (len dat, len b))).
-  assert (Hrok : rec_ok r) by (unfold rec_ok, r; cbn [fst snd]; lia).
-  (* the index file: the records of the completed operations plus the torn one *)
-  assert (Hrep : replay (d_idx d) = Some (ins (f_index stj) r)).
-  { rewrite Hd. cbn [d_idx]. rewrite H1.
-    change (enc_iprec seq (len dat, len b)) with (enc_iprec (fst r) (snd r)).
-    replace (encs recs ++ enc_iprec (fst r) (snd r)) with (encs (recs ++ [r]))
-      by (rewrite encs_app; unfold encs; cbn [map concat]; rewrite app_nil_r; reflexivity).
-    rewrite replay_encs by (apply Forall_app; split; auto).
-    rewrite fold_left_app, <- H2. reflexivity. }
-  assert (Hfi : forall j, sfind j (ins (f_index stj) r) =
-                          if j =? seq then Some (len dat, len b) else sfind j (f_index stj)).
-  { intros j. unfold ins, r. cbn [fst snd]. apply sfind_sinsert_none. exact Hnf. }
-  exists {| f_index := ins (f_index stj) r; f_disk := d |}, seq, b.
-  split; [unfold recover; rewrite Hrep; reflexivity|]. split; [exact Ei|].
-  assert (Hdat : d_dat d = dat) by (rewrite Hd; reflexivity).
-  split; [|split].
-  - intros j Hj. cbn [file_step spec_step f_index f_disk snd].
-    destruct (N.eqb_spec j 0); [reflexivity|].
-    rewrite Hfi. destruct (N.eqb_spec j seq); [contradiction|].
-    rewrite M, sfind_absm by auto. fold dat.
-    destruct (sfind j (f_index stj)) as [p|] eqn:E; cbn [option_map]; [|reflexivity].
-    assert (In (j, p) (drop0 (f_index stj))) by (apply in_drop0; [apply sfind_in; auto|auto]).
-    specialize (IB _ H). cbn [fst snd] in IB. fold dat in IB.
-    rewrite Hdat, fetch_ok by tauto. reflexivity.
-  - cbn [file_step f_index]. rewrite Hfi. destruct (N.eqb_spec 0 seq); [congruence|].
-    rewrite C. reflexivity.
-  - intros Hb. cbn [file_step f_index f_disk]. destruct (N.eqb_spec seq 0); [contradiction|].
-    rewrite Hfi, N.eqb_refl, Hdat. unfold file_fetch.
-    assert (0 < len b) by (unfold len; destruct b; [contradiction|cbn [length]; lia]).
-    replace (N.min (len b) (len dat - len dat)) with 0 by lia.
-    cbn [N.ltb N.compare]. destruct (N.eqb_spec 0 (len b)); [lia|]. reflexivity.
+  rewrite N.add_0_l in I.
+  (* the reopened store satisfies the invariant for the state after the completed operations *)
+  assert (Hrec : exists st n, recover d = Some st /\ finv st (fst (spec_run spec_empty A)) mode n /\
+                              n <= N.of_nat (length A) + 1).
+  { destruct (disk_inv_recs _ _ Hm (fi_disk _ _ _ _ I)) as [recs [H1 [H2 H3]]].
+    assert (Hrep : replay (d_idx (f_disk stj)) = Some (f_index stj))
+      by (rewrite H1, replay_encs by auto; rewrite <- H2; reflexivity).
+    destruct Hshape as [Hs|[seq [b [Hi [Hb Hs]]]]]; subst d; unfold recover; cbn [d_idx];
+      rewrite Hrep.
+    - exists {| f_index := f_index stj; f_disk := f_disk stj |}, (N.of_nat (length A)).
+      rewrite <- fstate_eta. split; [reflexivity|]. split; [exact I|lia].
+    - eexists. exists (N.of_nat (length A) + 1). split; [reflexivity|]. split; [|lia].
+      apply finv_garbage; auto. }
+  destruct Hrec as [st [n [Hr [Ist Hn']]]]. rewrite Hr.
+  rewrite run_with_file.
+  rewrite (file_run_refines after st _ mode n Ist); auto.
+  2:{ lia. }
+  2:{ apply no_reopen_safe; auto. }
+  cbn [result_of o_done o_after c27_ok].
+  apply andb_true_iff. split; [apply andb_true_iff; split|].
+  - apply Nat.leb_le. exact E3.
+  - rewrite Hd at 1. unfold spec_outputs. fold A. apply spec_run_eqb.
+  - apply orb_true_iff. left. unfold cand_ok, state_after. fold A. apply spec_run_eqb.
 Qed.
 
+Lemma c27_between_ops_partial_lemma : forall pre k after,
+  ops_wf (pre ++ OReopen :: after) = true -> zero_free (pre ++ OReopen :: after) = true ->
+  never_lost pre = true -> no_reopen after = true ->
+  crash_between file_empty pre k = true ->
+  c27_ok pre after (c27_result pre k after) = true.
+Proof. intros. apply c27_atomic_partial_lemma; auto. Qed.
+
 (* ---- refutations and non-vacuity (evaluation of the model on one history each) ---- *)
-Definition msg (l : list N) : list byte := l.
 
 (* F31: message stored before the first control record; no crash at all (k beyond the 10 calls) *)
 Definition f31_pre : list op := [OPut 1 [77; 83; 71; 45; 79; 78; 69]; OCtlPut 2 1; OPut 2 [77; 83; 71; 45; 84; 87; 79]].
@@ -331,34 +212,39 @@ Lemma c27_control_refuted_lemma :
   c27_ok f31_pre f31_after (c27_result f31_pre 10 f31_after) = false.
 Proof. repeat split; vm_compute; reflexivity. Qed.
 
-(* F32: the process dies after the index write of put(2, "BBBBBB") (call 9 = 2 + 4 + 3); after the
-   reopen put(2) is refused, and once put(3, "CCCCCCCC") has appended its bytes get(2) returns six
-   of them: bytes never stored under 2 *)
+(* F32, the code BEFORE a892b9a (index record written first): the process dies after the third
+   call of put(2, "BBBBBB") (call 9 = 2 + 4 + 3); after the reopen put(2) was refused and, once
+   put(3, "CCCCCCCC") had appended its bytes, get(2) returned six of them.  The repaired order on
+   the same input: 2 is simply absent, put(2,"DD") is accepted and retrievable. *)
 Definition f32_pre : list op := [OCtlPut 1 1; OPut 1 [65; 65; 65; 65]; OPut 2 [66; 66; 66; 66; 66; 66]].
 Definition f32_after : list op := [OGet 2; OPut 2 [68; 68]; OPut 3 [67; 67; 67; 67; 67; 67; 67; 67]; OGet 2].
-Lemma c27_order_refuted_lemma :
+Lemma c27_order_orig_refuted_lemma :
   ops_wf (f32_pre ++ OReopen :: f32_after) = true /\ zero_free (f32_pre ++ OReopen :: f32_after) = true /\
   no_reopen f32_after = true /\ never_lost f32_pre = true /\
   crash_torn file_empty f32_pre 9 = true /\
-  c27_result f32_pre 9 f32_after =
+  c27_result_orig f32_pre 9 f32_after =
     Some (2%nat, [RBool true; RBool true],
           [RBytes None; RBool false; RBool true; RBytes (Some [67; 67; 67; 67; 67; 67])]) /\
-  c27_ok f32_pre f32_after (c27_result f32_pre 9 f32_after) = false.
+  c27_ok f32_pre f32_after (c27_result_orig f32_pre 9 f32_after) = false /\
+  c27_result f32_pre 9 f32_after =
+    Some (2%nat, [RBool true; RBool true],
+          [RBytes None; RBool true; RBool true; RBytes (Some [68; 68])]).
 Proof. repeat split; vm_compute; reflexivity. Qed.
 
-(* non-vacuity: a control-first history killed inside its second control put (after the seek,
-   before the write: call 7 = 2 + 4 + 1) meets every hypothesis of c27_atomic_partial; the old
-   control record, the completed message and the further stores are all there *)
-Definition nv_pre : list op := [OCtlPut 3 4; OPut 1 [10; 11; 12]; OCtlPut 5 6; OPut 2 [13]].
-Definition nv_after : list op := [OCtlGet; OGet 1; OGet 2; OPut 2 [14; 15]; OCtlPut 7 8; OCtlGet; OGet 2].
+(* non-vacuity: a control-first history killed BETWEEN the data write and the index write of
+   put(2,[13;14]) (call 11 = 2 + 4 + 2 + 3) meets every hypothesis of c27_atomic_partial: the
+   orphan bytes are on disk, 2 is absent, everything completed is there, further stores work *)
+Definition nv_pre : list op := [OCtlPut 3 4; OPut 1 [10; 11; 12]; OCtlPut 5 6; OPut 2 [13; 14]].
+Definition nv_after : list op := [OCtlGet; OGet 1; OGet 2; OPut 2 [15]; OCtlPut 7 8; OCtlGet; OGet 2].
 Lemma c27_nonvacuous_lemma :
   ops_wf (nv_pre ++ OReopen :: nv_after) = true /\ zero_free (nv_pre ++ OReopen :: nv_after) = true /\
   never_lost nv_pre = true /\ no_reopen nv_after = true /\
-  crash_torn file_empty nv_pre 7 = false /\ crash_between file_empty nv_pre 7 = false /\
-  c27_result nv_pre 7 nv_after =
-    Some (2%nat, [RBool true; RBool true],
-          [RCtl (Some (3, 4)); RBytes (Some [10; 11; 12]); RBytes None; RBool true; RBool true;
-           RCtl (Some (7, 8)); RBytes (Some [14; 15])]).
+  crash_torn file_empty nv_pre 11 = true /\ crash_between file_empty nv_pre 11 = false /\
+  option_map (fun o => d_dat (o_disk o)) (c27_model nv_pre 11 nv_after) = Some [10; 11; 12; 13; 14] /\
+  c27_result nv_pre 11 nv_after =
+    Some (3%nat, [RBool true; RBool true; RBool true],
+          [RCtl (Some (5, 6)); RBytes (Some [10; 11; 12]); RBytes None; RBool true; RBool true;
+           RCtl (Some (7, 8)); RBytes (Some [15])]).
 Proof. repeat split; vm_compute; reflexivity. Qed.
 
 (* control values over the whole range of `unsigned` are inside the hypotheses: target 8193 (larger
